@@ -252,6 +252,111 @@ class C18Episode(Episode):
                               (pr, sig, wrong), once=r.idx)
 
 
+class C18DesigEpisode(Episode):
+    """the designation as the stop_signal of a watcher section in the
+    configuration file, or as the stop_signal option of a set request: it
+    must denote the same signal as in a signal / kill request, anything else
+    is refused (the file is not loaded / the request answered with an error)
+    and no signal of another number is ever used in its place"""
+
+    def setup(self):
+        import os
+        from ..world import World
+        from .. import ini
+        self.desig = self.case['desig']
+        self.via = self.case['via']
+        self.refused = None
+        self.clients = []
+        self.lsocks = []
+        self.pending_conn = False
+        self.world = World(self.cfg)
+        if self.via != 'ini':
+            self.world.build()
+            return
+        d = self.world.scratch_dir()
+        path = os.path.join(d, 'circus.ini')
+        wc = self.cfg['watchers'][0]
+        ent = {'name': wc['name'],
+               'cmd': 'worker --marker=%s' % wc['marker'],
+               'numprocesses': wc['opts']['numprocesses'],
+               'graceful_timeout': wc['opts']['graceful_timeout'],
+               'stop_signal': self.desig}
+        with open(path, 'w') as f:
+            f.write(ini.render(circus={'check_delay': 1.0}, watchers=[ent]))
+        try:
+            self.world.build_from_ini(path)
+            self.refused = False
+        except Exception as e:      # the file is refused
+            self.refused = True
+            self.refusal = repr(e)
+            self.world.build()      # an ordinary daemon, nothing is judged
+
+    def run_ops(self):
+        w = self.world
+        k = w.kernel
+        name = self.cfg['watchers'][0]['name']
+        d = self.desig
+        text = d.strip() if isinstance(d, str) else d
+        if self.via == 'ini':
+            # everything is text in a file; digits are a number
+            cls, val = classify(str(text))
+            self.probes['ini_' + cls] += 1
+            if self.refused:
+                if cls == 'canonical':
+                    self.viol('good_designation_refused',
+                              'stop_signal = %s in the configuration file '
+                              'was refused: %s' % (d, self.refusal),
+                              once='ini', via='ini')
+                return
+            if cls == 'refuse':
+                self.viol('bad_designation_accepted',
+                          'stop_signal = %r in the configuration file was '
+                          'accepted (watcher stop_signal %r)' %
+                          (d, getattr(self.watcher_obj(name), 'stop_signal',
+                                      None)), once='ini',
+                          kind=desig_kind(d), via='ini')
+                return
+        else:
+            cls, val = classify(d)
+            self.probes['set_' + cls] += 1
+            r = w.call('set', {'name': name, 'options': {'stop_signal': d}},
+                       max_dt=5.0)
+            o = r.reply if isinstance(r.reply, dict) else {}
+            if o.get('status') != 'ok':
+                if cls == 'canonical' and isinstance(d, int):
+                    self.viol('good_designation_refused',
+                              'set stop_signal %r was refused: %r' %
+                              (d, o.get('reason')), once='set', via='set')
+                cls = 'refused'
+            elif cls == 'refuse':
+                self.viol('bad_designation_accepted',
+                          'set stop_signal %r was accepted' % (d,),
+                          once='set', kind=desig_kind(d), via='set')
+                return
+        workers = set(p.pid for p in k.live_by_marker(
+            self.cfg['watchers'][0]['marker']))
+        n0 = len(k.signals)
+        w.call('stop', {'name': name}, waiting=True, max_dt=30.0)
+        first = {}
+        for e in k.signals[n0:]:
+            if e['pid'] in workers and e['sig'] != 0 and \
+                    e['pid'] not in first:
+                first[e['pid']] = int(e['sig'])
+        if cls == 'canonical':
+            want = val
+        elif cls == 'refused':
+            want = int(self.cfg['watchers'][0]['opts'].get('stop_signal', 15))
+        else:
+            return
+        self.probes['stop_signal_checked'] += 1
+        bad = dict((p, s) for p, s in first.items() if s != want)
+        if bad:
+            self.viol('stop_signal_differs',
+                      'stop_signal %r (via %s) denotes signal %s, the workers '
+                      'were stopped with %s' % (d, self.via, want, bad),
+                      once='stop', via=self.via)
+
+
 def desig_kind(d):
     if not isinstance(d, str):
         return type(d).__name__
@@ -302,11 +407,29 @@ class C18(Prop):
             '(exact target set and signal number). non-trivial = a request '
             'with pid/children/recursive addressing or a near-miss '
             'designation; distinct = (event kind, abstract daemon state) '
-            'sequence hash')
+            'sequence hash. 12 % of the cases put the designation where else '
+            'it is accepted - stop_signal of a configuration-file section '
+            '(Arbiter.load_from_config on a real ini file) or of a set '
+            'request - and judge acceptance / refusal and the signal a '
+            'following stop really delivers against the same reference')
     chunk = 120
     budget = {'quick': 40, 'thorough': 900}
 
     def gen(self, rng, tier, seed):
+        if rng.random() < 0.12:
+            # the same designations where else they are accepted: the
+            # stop_signal of a configuration file section / of a set request
+            cfg = gen.gen_base_cfg(rng, seed, nwatch=(1,), numproc=(1, 2),
+                                   singleton_p=0.0, kinds=('obedient',),
+                                   grace=[0.05], warmup=[0])
+            via = rng.choice(['ini', 'ini', 'set'])
+            d = gen_designation(rng)
+            if via == 'ini':
+                while not isinstance(d, (str, int)) or \
+                        isinstance(d, bool) or d == '':
+                    d = gen_designation(rng)
+            return {'cfg': cfg, 'ops': [], 'kind': 'desig', 'via': via,
+                    'desig': d}
         cfg = gen.gen_base_cfg(rng, seed, nwatch=(2, 2, 3), kids=True,
                                numproc=(1, 2, 3), singleton_p=0.0,
                                kinds=('obedient', 'slow', 'stubborn'),
@@ -384,6 +507,10 @@ class C18(Prop):
         return {'literal': rng.choice([0, 1, 4242, 77, 999999, -1, 4999])}
 
     def run(self, case):
+        if case.get('kind') == 'desig':
+            ep = C18DesigEpisode(case)
+            ep.run()
+            return self.result(ep, nontrivial=True)
         ep = C18Episode(case)
         ep.run()
         nt = any(op['op'] == 'req' and (
